@@ -27,6 +27,9 @@ CHECKS = {
  "C06": dict(cat="exploration", tech="runtime monitoring: per-account nonce ledger at the tx-boundary observer + must-reject hostile encodings + re-offering of every admitted transaction (same block, later blocks, CheckTx)",
    text="Held on the executions produced: for every offered transaction of both lanes the sender's sequence moves by exactly one iff the consensus result shows it was admitted (also when execution then fails, reverts or the block runs out of gas), the admitted nonce equals the pre-state sequence, no other account's sequence moves, rejected transactions have an empty full-store write set, and none of the hostile classes (unprotected, foreign chain id, From != signer, tampered payload/signature, stale/future nonce, Cosmos wrong sequence/account number/chain id/foreign key) nor any replay is ever admitted.",
    note="Admission is read from the consensus result (ante events present); signature malleability (high-s) is outside the statement and not asserted.", ref="§4 C06"),
+ "C09": dict(cat="exploration", tech="runtime monitoring: differential of the real FeeMarketKeeper.CalculateBaseFee / EndBlock against an independent math/big EIP-1559 model on generated contexts (function level) and after every block of real histories (history level); price-bound assertion on every admitted transaction",
+   text="Held on the executions produced: function level drives the real keeper over generated (Block.MaxGas incl. -1/0/1/2/MaxInt64, block-meter consumption around target and limit, base fee 0..2^256-1, fractional/clamping/huge min gas price) points incl. an enumerated boundary grid in thorough - any panic is a violation; history level runs real chains on 16 (MaxGas, genesis base fee, min gas price) variants with fill levels from empty to over-full, compares the fee_market event and stored parameter with the model applied to block gas recomputed from consensus results, and checks that every admitted Ethereum (3 types) and Cosmos (with/without dynamic-fee extension) transaction is priced at or above max(base fee, floor(min gas price)).",
+   note="For MaxGas=0 both the literal (target 0) and the unlimited-block reading are accepted; with a zero target and usage > 0 any non-panicking result >= floor(min gas price) is accepted; a prescribed value above 2^256-1 is expected saturated. Mempool-only (CheckTx) pricing is not observed.", ref="§4 C09"),
 }
 WIP = "monitor designed in DESIGN.md §4 but not built yet in this revision (work in progress; will be claimed once its check exists and is silent on the unchanged tree)"
 NA = {}
